@@ -22,7 +22,7 @@ class C10(TreeCheck):
 
     def bases(self, tier, rng):
         n = 14 if tier == "quick" else 100
-        return [dict(zip(("program", "meta"), programs.g_resize(rng)), config={}) for _ in range(n)]
+        return [dict(zip(("program", "meta"), programs.g_resize(rng, family="callback_submits" if i % 7 in (2, 5) else None)), config={}) for i in range(n)]
 
     def derive(self, base, F, rng, tier):
         quick = tier == "quick"
